@@ -232,10 +232,70 @@ fn part2(spec: &RuleSpec, depth: usize) -> Stats {
 // ---------------------------------------------------------------------------------------------
 // part 3: schedules - all interleavings of matches() calls at callback granularity
 
-struct YieldingDoc(MObj);
+/// a document whose every lookup - on the document and on every nested object - is a scheduling
+/// point of the controlled scheduler
+enum YVal {
+    Null,
+    Bool(bool),
+    Int(i64),
+    UInt(u64),
+    Float(f64),
+    Str(String),
+    Arr(Vec<YVal>),
+    Obj(YObj),
+}
+struct YObj(Vec<(String, YVal)>);
+impl tau_engine::AsValue for YVal {
+    fn as_value(&self) -> Value<'_> {
+        match self {
+            YVal::Null => Value::Null,
+            YVal::Bool(b) => Value::Bool(*b),
+            YVal::Int(i) => Value::Int(*i),
+            YVal::UInt(u) => Value::UInt(*u),
+            YVal::Float(f) => Value::Float(*f),
+            YVal::Str(s) => Value::String(std::borrow::Cow::Borrowed(s)),
+            YVal::Arr(a) => Value::Array(a),
+            YVal::Obj(o) => Value::Object(o),
+        }
+    }
+}
+impl Object for YObj {
+    fn get(&self, key: &str) -> Option<Value<'_>> {
+        shuttle::thread::yield_now();
+        use tau_engine::AsValue;
+        self.0.iter().find(|(k, _)| k == key).map(|(_, v)| v.as_value())
+    }
+    fn keys(&self) -> Vec<std::borrow::Cow<'_, str>> {
+        self.0.iter().map(|(k, _)| std::borrow::Cow::Borrowed(k.as_str())).collect()
+    }
+    fn len(&self) -> usize {
+        self.0.len()
+    }
+}
+fn yval(v: &crate::mdoc::MVal) -> YVal {
+    use crate::mdoc::MVal;
+    match v {
+        MVal::Null => YVal::Null,
+        MVal::Bool(b) => YVal::Bool(*b),
+        MVal::Int(i) => YVal::Int(*i),
+        MVal::UInt(u) => YVal::UInt(*u),
+        MVal::Float(f) => YVal::Float(*f),
+        MVal::Str(s) => YVal::Str(s.clone()),
+        MVal::Arr(a) => YVal::Arr(a.iter().map(yval).collect()),
+        MVal::Obj(o) => YVal::Obj(yobj(o)),
+    }
+}
+fn yobj(o: &MObj) -> YObj {
+    YObj(o.0.iter().map(|(k, v)| (k.clone(), yval(v))).collect())
+}
+struct YieldingDoc(YObj);
+impl YieldingDoc {
+    fn new(d: &MObj) -> Self {
+        YieldingDoc(yobj(d))
+    }
+}
 impl Document for YieldingDoc {
     fn find(&self, key: &str) -> Option<Value<'_>> {
-        shuttle::thread::yield_now();
         Object::find(&self.0, key)
     }
 }
@@ -366,14 +426,25 @@ fn run_sched(case: &SchedCase, sched: Sched) -> (usize, Vec<String>, bool) {
     let body = move || {
         count2.fetch_add(1, Ordering::SeqCst);
         let mut hs = vec![];
+        // many threads: start together, so that a lock-step schedule has all of them inside
+        // matches() at the same time
+        let gate = if work.len() > 3 {
+            Some(Arc::new(shuttle::sync::Barrier::new(work.len())))
+        } else {
+            None
+        };
         for (t, docs) in work.iter().enumerate() {
             let rule = rule.clone();
             let docs = docs.clone();
+            let gate = gate.clone();
             hs.push((
                 t,
                 shuttle::thread::spawn(move || {
+                    if let Some(g) = &gate {
+                        g.wait();
+                    }
                     docs.iter()
-                        .map(|d| rule.matches(&YieldingDoc(d.clone())))
+                        .map(|d| rule.matches(&YieldingDoc::new(d)))
                         .collect::<Vec<bool>>()
                 }),
             ));
@@ -740,6 +811,28 @@ pub fn run(tier: Tier) -> i32 {
                 work: (0..n).map(|t| vec![docs[t % docs.len()].clone()]).collect(),
                 expected: (0..n).map(|t| vec![seqv[t % docs.len()]]).collect(),
             };
+            // and one where every thread works on the most deeply nested document
+            let deep = SchedCase {
+                name: format!("{}/16threads/overlap-all-deep", base.name.rsplitn(2, '/').nth(1).unwrap_or("")),
+                yaml: base.yaml.clone(),
+                rule: base.rule.clone(),
+                work: (0..n).map(|_| vec![docs[1].clone()]).collect(),
+                expected: (0..n).map(|_| vec![seqv[1]]).collect(),
+            };
+            for (label, sc) in [("round-robin", Sched::RoundRobin), ("random", Sched::Random(crate::report::seed() + 1, if th { 200 } else { 30 }))] {
+                let (k, msgs, _) = run_sched(&deep, sc);
+                overlap += k;
+                rep.stats.states += k as u64;
+                rep.stats.transitions += k as u64;
+                rep.stats.traces += k as u64;
+                for m in msgs {
+                    rep.stats.push_violation(Violation {
+                        signature: "verdict-differs-under-some-interleaving".into(),
+                        witness: format!("{} ({} schedule): {}", deep.name, label, m),
+                        replay: json!({"kind":"schedule","rule_yaml":deep.yaml,"case":deep.name,"scheduler":label}),
+                    });
+                }
+            }
             for (label, sc) in [
                 ("round-robin", Sched::RoundRobin),
                 ("random", Sched::Random(crate::report::seed(), if th { 400 } else { 60 })),
